@@ -160,12 +160,21 @@ func runC11(c *Ctx, r *Report) {
 			}
 			r.Check(consts[1] && consts[0], "C11.R2", ssaFuncName(get), "linear search stops on 1 (greater) and 0 (found)", c.Pos(call.Pos()), "SmallMap.get no longer distinguishes `stored key greater` (insertion point) from `found`")
 			// every iteration compares: no stored key is skipped (or accepted) on any other criterion
+			// the innermost natural loop around the comparison: the closest dominator of the call's block that
+			// is the target of a back edge (an edge from a block it dominates)
 			var hdr *ssa.BasicBlock
 			for _, b := range get.Blocks {
-				for _, in := range b.Instrs {
-					if phi, ok := in.(*ssa.Phi); ok && strings.Contains(phi.Comment, "rangeint") {
-						hdr = b
+				if !b.Dominates(call.Block()) {
+					continue
+				}
+				back := false
+				for _, p := range b.Preds {
+					if b.Dominates(p) {
+						back = true
 					}
+				}
+				if back && (hdr == nil || hdr.Dominates(b)) {
+					hdr = b
 				}
 			}
 			if hdr == nil {
